@@ -89,6 +89,19 @@ impl Case {
     fn source_rich(&self) -> String {
         self.source().replace("impl Thing { pub fn get(&self) -> u8 { 0 } }", "impl Thing { pub fn get(&self) -> u8 { 0 } pub fn each(&self, f: impl Fn(&Thing) -> u8) -> u8 { 0 } }")
     }
+    /// the `--config` arguments as given on the command line.  Every third case that has any also gets a stray
+    /// argument without `=` somewhere among them: the tool skips it with a notice, the settings around it still count
+    /// (so the model's line, which never sees it, stays the same).
+    pub fn cli_args(&self) -> Vec<String> {
+        let mut v: Vec<String> = self.cli.iter().map(|e| format!("{}={}", e.key, e.text)).collect();
+        if !v.is_empty() {
+            let h = v.iter().flat_map(|s| s.bytes()).fold(0xcbf29ce484222325u64, |h, b| (h ^ b as u64).wrapping_mul(0x100000001b3));
+            if h % 3 == 0 {
+                v.insert((h / 3) as usize % (v.len() + 1), "stray-argument".to_string());
+            }
+        }
+        v
+    }
     fn source(&self) -> String {
         let mut s = String::new();
         for (i, a) in self.attrs.iter().enumerate() {
@@ -178,7 +191,7 @@ fn run_real(case: &Case, dir: &std::path::Path) -> Result<std::collections::BTre
     std::fs::write(&path, case.toml_text()).unwrap();
     let src = case.source();
     let file = syn::parse_file(&src).map_err(|e| format!("parse: {e}"))?;
-    let cli: Vec<String> = case.cli.iter().map(|e| format!("{}={}", e.key, e.text)).collect();
+    let cli: Vec<String> = case.cli_args();
     let target = case.target.clone();
     let cfg = tool::catch(move || {
         let mut config = Config::default();
@@ -312,7 +325,7 @@ fn output_oracle(case: &Case, expected: &std::collections::BTreeMap<String, Stri
     if case.target == "kotlin" && dom != "-" && dom.chars().all(|c| c.is_alphanumeric() || c == '_' || c == '.') {
         let path = util::workdir("C17out").join("config.toml");
         std::fs::write(&path, case.toml_text()).unwrap();
-        let cli: Vec<String> = case.cli.iter().map(|e| format!("{}={}", e.key, e.text)).collect();
+        let cli: Vec<String> = case.cli_args();
         let src = case.source();
         let r = tool::catch(move || {
             let mut config = Config::default();
@@ -337,7 +350,7 @@ fn output_oracle(case: &Case, expected: &std::collections::BTreeMap<String, Stri
     if (case.target == "nanobind" || case.target == "py-nanobind") {
         let path = util::workdir("C17out").join("config.toml");
         std::fs::write(&path, case.toml_text()).unwrap();
-        let cli: Vec<String> = case.cli.iter().map(|e| format!("{}={}", e.key, e.text)).collect();
+        let cli: Vec<String> = case.cli_args();
         let src = case.source();
         let target = case.target.clone();
         let r = tool::catch(move || {
@@ -424,7 +437,7 @@ pub fn main(args: &[String]) {
                 tie_budget -= 1;
                 rep.oracle_runs += 1;
                 rep.count("cli-tie");
-                let cli: Vec<String> = c.cli.iter().map(|e| format!("{}={}", e.key, e.text)).collect();
+                let cli: Vec<String> = c.cli_args();
                 let reads_urc = c.cli.iter().map(|e| &e.key).chain(c.attrs.iter().map(|e| &e.key)).any(|k| k.contains("unsafe_references")) || c.file.iter().any(|e| e.key.contains("unsafe"));
                 let src = if tie_budget % 2 == 0 || reads_urc { c.source_rich() } else { c.source() };
                 if let Some(d) = tool::cli_tie(&dir.join("tie"), &src, &c.target, Some(&c.toml_text()), &cli) {
